@@ -85,13 +85,17 @@ static void open_bytes(const unsigned char *raw, size_t n, const char *pt, const
     close(fd);
 }
 
+static void on_alarm(int sgn) { (void)sgn; printf("HANG\n"); fflush(stdout); _exit(98); }
+
 int main(void) {
     zck_set_log_level(ZCK_LOG_NONE);
     zh_apply_limits();
+    signal(SIGALRM, on_alarm);       /* watchdog: opening a header takes milliseconds */
     char *line;
     unsigned char *base = NULL; size_t base_n = 0;
     char cpt[32] = "-", cps[32] = "-"; char *cpd = strdup("-");
     while((line = zh_readline(stdin))) {
+        alarm(15);
         char pt[32], ps[32];
         char *pd = malloc(strlen(line) + 1), *hex = malloc(strlen(line) + 1);
         unsigned long pos; unsigned int val;
